@@ -181,6 +181,23 @@ impl<T: Twin> Twin for Alias<T> {
     }
 }
 
+/// a serde-derived newtype struct that is *not* transparent
+#[derive(Serialize, Deserialize, Debug, Clone, PartialEq, Eq, PartialOrd, Ord)]
+#[serde(bound(deserialize = "T: DeserializeOwned"))]
+pub struct NT<T>(pub T);
+
+impl<T: Twin> Twin for NT<T> {
+    fn shape() -> Shape {
+        Shape::NewtypeStruct("NT", Box::new(T::shape()))
+    }
+    fn from_val(v: &Val) -> Self {
+        NT(T::from_val(v))
+    }
+    fn to_val(&self) -> Val {
+        self.0.to_val()
+    }
+}
+
 pub struct TwinCase {
     pub name: &'static str,
     pub run: fn(&mut Report, &mut dyn FnMut(&mut Report, &str, &Shape, &Val, TwinView)),
@@ -284,6 +301,10 @@ twins!(
     S<S<f64>>,
     S<Option<S<Uuid>>>,
     Vec<S<BTreeMap<bool, Bytes>>>,
+    NT<f64>,
+    NT<Bytes>,
+    Vec<NT<Option<NT<f64>>>>,
+    S<NT<S<Bytes>>>,
     Alias<f64>,
     Alias<Vec<Alias<f64>>>,
     S<Alias<Option<Alias<Bytes>>>>,
